@@ -84,7 +84,7 @@ def run_case(cls, key, seed, ctx):
             s = [lv[int(v) % 5] for v in s]
         else:
             fam = fam2
-        constraint, objective, flip, gs = TL.config_schedule(int(rng.integers(0, 10 ** 6)))
+        constraint, objective, flip, gs = TL.config_random(rng)
         hostile = True
     wit = {"groups": g, "labels": y, "scores": s, "constraint": constraint, "objective": objective, "flip": flip, "grid_size": gs}
     dists = {tuple(sorted((s[i], y[i]) for i in range(len(g)) if g[i] == gv)) for gv in set(g)}
